@@ -247,7 +247,9 @@ Definition holds_maf (p : gtab) (thr : option (option Q)) (d w : bool) (o : qobs
   | Some None, _ => true
   | Some (Some tq), _ =>
       let must j := Qle_bool (nth j mq 0%Q + eps) tq && negb (Qeq_bool (nth j mq 0%Q + eps) tq) in
-      let may j := Qle_bool (nth j mq 0%Q) (tq + eps) in
+      (* a MAF that equals the threshold exactly is not below it (then k/2n is itself a double,
+         the code's comparison is exact); otherwise allow a 1e-9 band for rounding *)
+      let may j := Qle_bool (nth j mq 0%Q) (tq + eps) && negb (Qeq_bool (nth j mq 0%Q) tq) in
       match o with
       | ORet t mf =>
           if d then
@@ -299,19 +301,20 @@ Definition check_qc (k : qcase) : bool * bool :=
 (* ---- the default loader: cls.load(file) = read; check_missing; check_biallelic; check_phase *)
 
 Record lcase := mkl {
+  l_anc : bool;        (* GenotypesAncestry.load *)
   l_input : gtab;      (* what the harness wrote into the VCF (for the replay file only) *)
   l_raw : gtab;        (* what a bare read() of that file holds: the table the checks start from *)
   l_out : qobs         (* what load() did *)
 }.
 
-Definition model_load (k : lcase) : qout := load_checks false false (l_raw k).
+Definition model_load (k : lcase) : qout := load_checks false (l_anc k) (l_raw k).
 
 Definition holds_load (k : lcase) : bool :=
   let raw := l_raw k in
   match l_out k with
   | OOther e => e =? E_Unobserved
   | ORet t _ =>
-      no_cell (miss_must false) raw && no_cell multi_must raw && no_cell unph_must raw
+      no_cell (miss_must (l_anc k)) raw && no_cell multi_must raw && no_cell unph_must raw
       && gtab_eqb t (strip_phase (cast_bool raw))
   | ORaise (Some s) (Some v) _ =>
       match named_cell raw s v with
